@@ -117,7 +117,9 @@ fn c13_tree_new_bounded_8() {
 #[kani::stub(std::hash::RandomState::new, fixed_random_state)]
 #[kani::stub(crate::group::secret_tree::TreeSecretsVec::set_node, model_set_node)]
 #[kani::stub(crate::group::secret_tree::TreeSecretsVec::take_node, model_take_node)]
-#[kani::unwind(18)]
+// unwind 28: Kani compiles the contracts attached to the tree-math functions (C20) into
+// every caller; their oracle descends the maximal tree (25 levels)
+#[kani::unwind(28)]
 fn c13_consume_node_bounded_8() {
     let secret = any_exact::<NH>();
     for_each_below(7, |half| {
@@ -145,6 +147,9 @@ fn c13_consume_node_bounded_8() {
         assert!(node_secret(index).is_none());
         assert!(is_out(node_secret(left).unwrap(), l.unwrap(), NH));
         assert!(is_out(node_secret(right).unwrap(), r.unwrap(), NH));
+        // leave the model empty for the next case
+        core::mem::forget(model_slot(&left).take());
+        core::mem::forget(model_slot(&right).take());
         core::mem::forget(t);
     });
 }
@@ -303,7 +308,9 @@ fn c13_ratchet_next_message_key_provider_error() {
 #[kani::stub(std::hash::RandomState::new, fixed_random_state)]
 #[kani::stub(crate::group::secret_tree::TreeSecretsVec::set_node, model_set_node)]
 #[kani::stub(crate::group::secret_tree::TreeSecretsVec::take_node, model_take_node)]
-#[kani::unwind(18)]
+// unwind 28: Kani compiles the contracts attached to the tree-math functions (C20) into
+// every caller; their oracle descends the maximal tree (25 levels)
+#[kani::unwind(28)]
 fn c13_tree_first_message_key_bounded_4() {
     let enc = any_exact::<NH>();
     let handshake: bool = kani::any();
